@@ -246,8 +246,9 @@ def _run_sc(arg):
 
 
 def canon(x):
-    if " x=" in x:
-        x = x[:x.index(" x=")]
+    for tag in (" x=", " st="):
+        if tag in x:
+            x = x[:x.index(tag)]
     if x[:2] in ("D ", "S ") and x[2:] != "-":
         return x[:2] + ",".join(sorted(x[2:].split(","), key=int))
     if x in ("N", "U", "J"):
@@ -400,8 +401,8 @@ def run(ctx):
     scs = list(replay_scs)
     if not ctx.get("replay"):
         scs += corpus_scenarios()
-        for _ in range(1000 if tier == "quick" else 12000):
-            scs.append(G.gen_scenario(rnd))
+        for k in range(1000 if tier == "quick" else 12000):
+            scs.append(G.gen_directed(rnd) if k % 4 == 3 else G.gen_scenario(rnd))
     exp = [E.expand(s) for s in scs]
     mlines, spans = [], []
     for s in exp:
@@ -484,6 +485,14 @@ def run(ctx):
                     # (even when both accept): from here on the two worlds hold different rules
                     if not class_known(rep, known, classes, ml[j]):
                         rep.violation("history event `%s`: daemon and model `%s`, the specification says `%s` (class %s)" % (ml[j][:200], m, sp, classes), replay)
+                    spec_live = False
+                elif m == sp and m_raw.endswith(" st=0"):
+                    # same answer, but the two worlds now hold different rules
+                    text = bytes.fromhex(ml[j].split()[2].replace("-", "")) if op in ("add", "rm") else b""
+                    if op == "rm" and b"path_namespace" in text and "F8" in known:
+                        rep.known(known["F8"], ml[j])
+                    else:
+                        rep.violation("history event `%s`: same answer `%s` but the rule sets of code/model and specification differ" % (ml[j][:200], m), replay)
                     spec_live = False
                 elif m != sp:
                     text = bytes.fromhex(ml[j].split()[2].replace("-", "")) if op in ("add", "rm") else b""
